@@ -38,6 +38,10 @@ type sharedInputs struct {
 	graphics [][]byte
 	pal      [64]color.RGBA
 	pathData string
+	// an option list with spare capacity, passed as opts[:1]... and opts[:2]... by different pipelines
+	opts []decode.DecodeOption
+	// a table of gradient stops (legal, not sorted by offset) of which pipelines use overlapping windows
+	stops []generate.GradientStop
 }
 
 func loadShared() (*sharedInputs, error) {
@@ -55,6 +59,11 @@ func loadShared() (*sharedInputs, error) {
 	for i := range s.pal {
 		s.pal[i] = color.RGBA{uint8(3 * i), uint8(255 - 2*i), uint8(i), 0xff}
 	}
+	s.opts = make([]decode.DecodeOption, 2, 4)
+	s.opts[0] = decode.WithPalette(s.pal)
+	s.opts[1] = decode.WithColorAt(5, color.NRGBA{200, 100, 50, 128})
+	s.stops = []generate.GradientStop{{Offset: 0.5, Color: color.RGBA{0xff, 0, 0, 0xff}}, {Offset: 0.25, Color: color.NRGBA{0, 0xff, 0, 0x80}},
+		{Offset: 0.75, Color: color.RGBA{0, 0, 0xff, 0xff}}, {Offset: 0.125, Color: color.Gray{0x80}}}
 	return s, nil
 }
 
@@ -63,7 +72,18 @@ func (s *sharedInputs) hash() string {
 	for _, g := range s.graphics {
 		h.Write(g)
 	}
-	fmt.Fprint(h, s.pal, s.pathData)
+	fmt.Fprint(h, s.pal, s.pathData, s.stops, len(s.opts), cap(s.opts))
+	// every slot of the option list's backing array, fingerprinted by what the option does to a probe
+	for _, o := range s.opts[:cap(s.opts)] {
+		m := ivg.Metadata{ViewBox: ivg.ViewBox{MinX: 1, MinY: 2, MaxX: 3, MaxY: 4}}
+		for i := range m.Palette {
+			m.Palette[i] = color.RGBA{uint8(200 + i%50), uint8(i), 7, uint8(4 * i)} // mostly not premultiplied
+		}
+		if o != nil {
+			o(&m)
+		}
+		fmt.Fprint(h, o == nil, m)
+	}
 	fmt.Fprint(h, ivg.VerifSharedHash(), decode.VerifSharedHash(), encode.VerifSharedHash(), mdicons.VerifSharedHash())
 	return hex.EncodeToString(h.Sum(nil)[:12])
 }
@@ -151,6 +171,33 @@ func allPipelines(s *sharedInputs) []pipeline {
 				return append(append(out, b3...), fmt.Sprint(err, err2)...)
 			}},
 		)
+	}
+	for gi := 0; gi < 2; gi++ {
+		gi := gi
+		for k := 1; k <= 2; k++ {
+			k := k
+			ps = append(ps, pipeline{fmt.Sprintf("decode-shared-opts/%d/%d", k, gi), func(s *sharedInputs, gate func()) []byte {
+				rec := &Recorder{}
+				gate()
+				err := decode.Decode(newGated(rec, gate), s.graphics[gi], s.opts[:k]...)
+				return append(hashCalls(rec.Calls[:1]), fmt.Sprint(len(rec.Calls), err)...)
+			}})
+		}
+	}
+	for k := 2; k <= 4; k++ {
+		k := k
+		ps = append(ps, pipeline{fmt.Sprintf("generator-shared-stops/%d", k), func(s *sharedInputs, gate func()) []byte {
+			var e encode.Encoder
+			g := &generate.Generator{}
+			g.SetDestination(newGated(&e, gate))
+			gate()
+			err1 := g.SetLinearGradient(-8, -8, 8, 8, generate.GradientSpreadPad, s.stops[:k])
+			err2 := g.SetPathData("M0 0L10 10 20 0z", 0)
+			err3 := g.SetCircularGradient(0, 0, 3, 4, generate.GradientSpreadNone, s.stops[1:k])
+			err4 := g.SetPathData("M0 0L10 10 20 0z", 0)
+			b, err5 := e.Bytes()
+			return append(append([]byte(nil), b...), fmt.Sprint(err1, err2, err3, err4, err5)...)
+		}})
 	}
 	ps = append(ps,
 		pipeline{"generator-encoder", func(s *sharedInputs, gate func()) []byte {
